@@ -111,8 +111,8 @@ package heap
 // Fix(i): restores heap order after the element at i changed (every other edge must be in order)
 //@ func (*Heap).Fix
 //@   functype Heap.Less pure
-//@   requires h != nil && swo(h) && i < len(h.Slice)
-//@   requires i >= 0 ==> (forall p int :: 0 <= p && p < len(h.Slice) && p != i && (i == 0 || p != (i-1)/2) ==> okAt(h, p, len(h.Slice))) && siblingOK(h, i, len(h.Slice)) && (i >= 1 ==> (2*i+1 < len(h.Slice) ==> !h.Less(h.Slice[2*i+1], h.Slice[(i-1)/2])) && (2*i+2 < len(h.Slice) ==> !h.Less(h.Slice[2*i+2], h.Slice[(i-1)/2])))
+//@   requires h != nil && swo(h) && (i < len(h.Slice) || i == 0)
+//@   requires i >= 0 && i < len(h.Slice) ==> (forall p int :: 0 <= p && p < len(h.Slice) && p != i && (i == 0 || p != (i-1)/2) ==> okAt(h, p, len(h.Slice))) && siblingOK(h, i, len(h.Slice)) && (i >= 1 ==> (2*i+1 < len(h.Slice) ==> !h.Less(h.Slice[2*i+1], h.Slice[(i-1)/2])) && (2*i+2 < len(h.Slice) ==> !h.Less(h.Slice[2*i+2], h.Slice[(i-1)/2])))
 //@   requires i < 0 ==> heapOK(h, len(h.Slice))
 //@   ensures [C11.fix.order] heapOK(h, len(h.Slice)) && sameSlice(h.Slice, old(h.Slice)) && h.Less == old(h.Less)
 //@   modifies elems(h.Slice)
